@@ -279,6 +279,7 @@ def run(chk):
     C03.run_escape(chk, fx, fns, prefix="C04")
     C03.run_through(chk, fx, fns, closure, prefix="C04")
     C03.run_inplace(chk, fx, fns, prefix="C04")
+    C03.run_items(chk, fx, prefix="C04")
     chk.assumptions += [
         "the C03 copy-on-write rules are evaluated on every library function (a superset of what applyAction reaches)",
         "documented mode-dependent keywords: WELPI, UDQ '?' substitution (tables in rules/C04.py)",
